@@ -98,6 +98,7 @@ pub(crate) fn run(seed: u64, n: u64, out: &mut Out) {
     let interval = 10u64;
     let reader = GCSFilterReader::new(SipHasher24Builder::new(0, 0), M, P);
     let mut case_no = 0u64;
+    run_download_order(&mut rng, out, &consensus);
     for world in 0..n {
         let pool: Vec<packed::Script> = (1..=4u8).map(|i| pool_script(7, &[i])).collect();
         let mut gen = TxGen::new(pool.clone(), world * 100_000, 3);
@@ -387,5 +388,69 @@ pub(crate) fn run(seed: u64, n: u64, out: &mut Out) {
             case_no += 1;
             if r.panicked || skipped { break; }
         }
+    }
+}
+
+
+/// Download order: the bodies of one pending matched record arrive in any order; SyncProtocol must index them in
+/// block-number order.  Every block of the record spends the cell its predecessor created and creates the next one, so any two
+/// neighbours indexed the wrong way round leave a phantom cell.  One record straddles block 255 / 256 (where byte-wise and
+/// numeric order of the packed little-endian number part), one lies at a random place.
+fn run_download_order(rng: &mut Rng, out: &mut Out, consensus: &ckb_chain_spec::consensus::Consensus) {
+    use ckb_types::bytes::Bytes;
+    for (w, first) in [250u64, rng.range(20, 200), 505].iter().enumerate() {
+        let first = *first;
+        let count = rng.range(8, 14);
+        let len = first + count + 2;
+        let script = pool_script(7, &[1]);
+        let outside = pool_script(9, &[9]);
+        let mut all: HashMap<packed::Byte32, packed::Transaction> = HashMap::new();
+        let mut prev: Option<packed::Byte32> = None;
+        let mut salt = 0u32;
+        let chain = super::chain::SynChain::new_with_bodies(flat_plan(((len / 8) + 2) as usize, 8, 5), len, 40_000 + w as u64, 0, &mut |n| {
+            salt += 1;
+            let inside = n > first && n <= first + count;
+            let inputs: Vec<packed::CellInput> = if inside { prev.iter().map(|h| packed::CellInput::new(packed::OutPoint::new(h.clone(), 0), 0)).collect() } else { Vec::new() };
+            let output = packed::CellOutput::new_builder().capacity(100u64.pack()).lock(if inside { script.clone() } else { outside.clone() }).build();
+            let raw = packed::RawTransaction::new_builder().version(salt.pack()).inputs(inputs.pack()).outputs(vec![output].pack()).outputs_data(vec![Bytes::new().pack()].pack()).build();
+            let tx = packed::Transaction::new_builder().raw(raw).build();
+            let h = tx.calc_tx_hash();
+            all.insert(h.clone(), tx.clone());
+            prev = if inside { Some(h) } else { None };
+            vec![tx]
+        });
+        let mut bc = BodyChain { chain, all, filters: Vec::new(), fhashes: Vec::new() };
+        bc.derive_pub();
+        let mut net = Net::new(&bc.chain, consensus, 5, 2, 10);
+        let peer = PeerIndex::new(1);
+        if !net.prove_peer(peer, &bc.chain, bc.tip()) { out.stat("c06-order-unproven", &format!("{}", w)); continue; }
+        net.storage.update_filter_scripts(vec![ScriptStatus { script: script.clone(), script_type: ScriptType::Lock, block_number: first }], SetScriptsCommand::All);
+        let blocks: Vec<(packed::Byte32, bool)> = ((first + 1)..=(first + count)).map(|n| (bc.chain.headers[n as usize].hash(), true)).collect();
+        net.storage.add_matched_blocks_and_update_min_filtered_block_number(first + 1, count, blocks.clone(), first + count);
+        {
+            let mut guard = net.peers.matched_blocks().write().expect("poisoned");
+            net.peers.add_matched_blocks(&mut guard, blocks.clone());
+        }
+        // deliver in a shuffled order
+        let mut order: Vec<u64> = ((first + 1)..=(first + count)).collect();
+        for i in (1..order.len()).rev() { let j = rng.below(i as u64 + 1) as usize; order.swap(i, j); }
+        let mut problems: Vec<String> = Vec::new();
+        for n in &order {
+            let r = net.sp_recv(peer, send_block_message(bc.chain.block(*n)));
+            if r.panicked { problems.push(format!("[C10-handler-panic] SendBlock panicked: {}", super::last_panic())); break; }
+            if !r.bans.is_empty() { problems.push(format!("[C05-honest-block-banned] an authentic SendBlock of a proved matched block was answered with a ban {:?}", r.bans)); }
+        }
+        let number = net.storage.get_filter_scripts().iter().map(|s| s.block_number).next().unwrap_or(0);
+        let expect = bc.live_cells(&script, true, first, first + count);
+        let got = indexed_cells(&net, &script, true);
+        if number != first + count { problems.push(format!("[C03-index-misses-activity-after-sync] after all {} bodies arrived the script is reported at {} instead of {}", count, number, first + count)); }
+        if got != expect {
+            problems.push(format!("[C03-index-mismatch-after-sync] the bodies of the record {}..={} arrived in the order {:?}; the index holds {:?}, the chain's live cells of the script are {:?}", first + 1, first + count, order,
+                got.iter().map(|c| (c.0, c.1, c.2)).collect::<Vec<_>>(), expect.iter().map(|c| (c.0, c.1, c.2)).collect::<Vec<_>>()));
+        }
+        if !matched_records(&net).is_empty() { problems.push("[C03-index-misses-activity-after-sync] the pending record is still there after all its bodies arrived".into()); }
+        let oracle = if problems.is_empty() { Ok(()) } else { Err(problems.join(" || ")) };
+        out.case(&format!("order-{}", w), &["download-order", if first < 256 && first + count >= 256 { "straddles-256" } else if first < 512 && first + count >= 512 { "straddles-512" } else { "plain" }], "(VN 1)", &Val::n(1), oracle,
+            &format!("record {}..={} of a spend chain, bodies delivered in the order {:?}", first + 1, first + count, order));
     }
 }
